@@ -1,0 +1,39 @@
+//go:build verif
+
+// Verification hook (build tag "verif" only; see /verif/MANIFEST.hooks): lets a harness give the
+// CNI plugins a prepared clientv3 client (for example one backed by an in-memory datastore)
+// instead of one built from the environment.  With the tag off, client_noverif.go provides a
+// verifClientOverride that never overrides.
+
+package utils
+
+import (
+	"sync"
+
+	"github.com/projectcalico/calico/cni-plugin/pkg/types"
+	client "github.com/projectcalico/calico/libcalico-go/lib/clientv3"
+)
+
+var (
+	verifClientMu sync.Mutex
+	verifClientFn func(conf types.NetConf) client.Interface
+)
+
+// SetVerifClientOverride installs the factory consulted first by CreateClient; nil removes it.
+// A factory that returns nil means "no override for this configuration".
+func SetVerifClientOverride(f func(conf types.NetConf) client.Interface) {
+	verifClientMu.Lock()
+	verifClientFn = f
+	verifClientMu.Unlock()
+}
+
+func verifClientOverride(conf types.NetConf) (client.Interface, bool) {
+	verifClientMu.Lock()
+	f := verifClientFn
+	verifClientMu.Unlock()
+	if f == nil {
+		return nil, false
+	}
+	c := f(conf)
+	return c, c != nil
+}
